@@ -218,7 +218,16 @@ func (w *World) truncationChecks(everyByteBelow, samples int) {
 	}
 	// ---- the primary's commit log
 	if st.logFile != nil && len(st.logFile.Data) > 0 {
-		data := st.logFile.Data
+		w.logTruncationChecks(st.logFile, everyByteBelow, samples, rng)
+	}
+}
+
+// logTruncationChecks enumerates crash points of a commit log: Range over every prefix
+// must deliver a prefix of the original commits, each identical, without panic or hang.
+func (w *World) logTruncationChecks(file *SimRW, everyByteBelow, samples int, rng *Rng) {
+	limit := 10 * time.Second
+	{
+		data := file.Data
 		var full []decodedCommit
 		if err := commit.Open(NewSimReader(data, nil, 0)).Range(func(c commit.Commit) error {
 			full = append(full, decodeKey(c))
@@ -227,7 +236,7 @@ func (w *World) truncationChecks(everyByteBelow, samples int) {
 			w.fail(violation("truncated-log/complete-unreadable", "the complete log does not range: %v", err))
 			return
 		}
-		for _, p := range truncationPoints(len(data), st.logFile.Boundaries(), everyByteBelow, samples, rng) {
+		for _, p := range truncationPoints(len(data), file.Boundaries(), everyByteBelow, samples, rng) {
 			rd := NewSimReader(data[:p], nil, 0)
 			mode := "eof"
 			if p%4 == 1 {
@@ -447,3 +456,56 @@ func (w *World) snapshotFaultChecks(everyByteBelow, samples int) {
 }
 
 var _ = column.SimBeforeLock
+
+// runBigLog is the C13 history with commits larger than one 1 MiB s2 block: one
+// transaction alternates between two full 16K blocks, storing a string and a number in
+// every row, so that each of its two commits spans several s2 frames and carries 16K
+// shard headers per buffer; the log is then cut at every frame boundary (+-2) and ranged.
+func runBigLog(cs *Case) (w *World) {
+	w = newWorld(cs)
+	curWorld = w
+	defer func() {
+		curWorld = nil
+		w.close()
+		w.stats.Trace = uint64(hashInit.add(uint64(w.stats.Checks)).add(uint64(len(w.tap.Commits))))
+	}()
+	commit.SimSetID(1000)
+	rng := NewRng(cs.Seed, uint64(cs.Run), 97)
+	w.tap = &Tap{w: w}
+	file := &SimRW{SimFile: NewSimFile()}
+	lg := commit.Open(file)
+	w.primary = w.newCollection(w.tap)
+	w.prefill(w.primary, cs.Cfg.Prefill)
+	w.tap.Commits = nil
+	w.tap.Sinks = []commit.Logger{lg}
+	strLen := cs.Cfg.Params["str_len"]
+	rows := cs.Cfg.Params["rows"]
+	val := bulkValue(uint32(cs.Run), strLen)
+	err := w.primary.Query(func(txn *column.Txn) error {
+		for i := 0; i < rows; i++ {
+			for _, off := range []uint32{uint32(i), uint32(1<<14 + i)} {
+				txn.QueryAt(off, func(r column.Row) error {
+					r.SetString("a", val)
+					r.SetInt64("b", int64(i))
+					return nil
+				})
+			}
+		}
+		return nil
+	})
+	if err != nil {
+		w.fail(violation("query-result", "%v", err))
+		return w
+	}
+	w.stats.Commits++
+	w.stats.Txns++
+	// a small ordinary commit after the big ones
+	w.primary.QueryAt(5, func(r column.Row) error { r.SetInt64("b", -1); return nil })
+	if len(file.Data) > 2<<20 {
+		w.stats.probe("commits-above-1MiB-in-log")
+	}
+	w.logTruncationChecks(file, 0, 40, rng)
+	w.stats.EndState = uint64(hashInit.add(uint64(len(file.Data))))
+	w.stats.Nontrivial = len(w.tap.Commits) >= 2
+	return w
+}
